@@ -3,9 +3,12 @@
 Engine E2 (exhaustive enumeration, metamorphic) + a reporting sweep.
 
 Space   TEMPLATES (written out below) x case re-spellings of their foldable tokens x quoted/unquoted re-spellings of
-        their marked names. Every element is executed on a fresh in-memory instance after the fixed PRELUDE and is
-        followed by the fixed POSTLUDE (probes, always in the same spelling, that make session variables and an open
-        transaction observable).
+        their marked names. Every element is executed after the fixed PRELUDE and is followed by the fixed POSTLUDE
+        (probes, always in the same spelling, that make session variables and a still-open transaction observable
+        from their effects). State-changing statement kinds get a fresh in-memory instance per spelling. Read-only
+        kinds (SHARED_KINDS) reuse one instance per work item, but only while the ground truth proves it pristine:
+        after every execution the raw-DuckDB digest, the session context, the postlude outcome and the probe table
+        must equal those of the untouched instance, otherwise the instance is thrown away (DESIGN 2.2 (i)).
 
         quick    per template: all-lower, ALL-UPPER, Capitalised, aLtErNaTiNg, every single token in UPPER;
                  every single marked name written as "UPPER", and all of them.
@@ -19,9 +22,10 @@ Clauses
                         status (success / exception class, errno, sqlstate), names (DictCursor keys and
                         description names), rows, rowcount, context (conn.database / conn.schema and the engine's
                         own current database/schema), state (raw-DuckDB catalogue + data digest), post (outcome of
-                        the postlude probes and the digest after them).
+                        the postlude probes, rows of the probe table and the context after them).
   C02.quoted.<facet>    writing an unquoted name as its double-quoted upper-case spelling denotes the same object:
-                        same outcome as the reference.
+                        same outcome as the same statement without the quotes (the all-lower reference; for the
+                        thorough variants whose other tokens are in upper case, the ALL-UPPER spelling).
   C02.report.<surface>  absolute: on each surface the names are the ones the identifier rules predict
                         (mc/ref/sf_ident.py: unquoted -> upper case, quoted -> verbatim). Surfaces: description,
                         dictkeys, status (of the template's own result, where the template states an expectation),
@@ -708,11 +712,12 @@ def work(item, acc: core.Acc, tier):
     ref, _, sess = execute(tid, ref_text)
     acc.count("evaluations")
     acc.count("reference_reruns")
+    acc.count("instances")
     out = []
     try:
         for text, do_sweep in texts:
-            if sess is None:
-                acc.count("instances")
+            if sess is None or tpl.kind == "CONNECT":
+                acc.count("instances")  # fresh in-memory instances built (prelude executed)
             o, findings, sess = execute(tid, text, sweep=do_sweep, sess=sess)
             acc.count("evaluations")
             acc.count("spellings_executed")
